@@ -82,7 +82,8 @@ def make_provider(eng, st, side, cfg=None, name=None):
         "oid_is_path": S("bool", oip), "default_sleep": S("real", ds), "name": C(nm)})
     cref.info.name = "Prov<%s>" % cfg["name"]
     r = st.alloc(HObj("obj", cref, fields={"_root_path": opt(nm + "._root_path", named("str", nm + "._root_path")),
-                                           "_root_oid": NONE, "connection_id": C("conn-" + nm)},
+                                           "_root_oid": opt(nm + "._root_oid", named("str", nm + "._root_oid")),
+                                           "connection_id": C("conn-" + nm)},
                       meta={"tag": "provider", "side": side, "name": nm}))
     return r
 
